@@ -18,7 +18,7 @@ pub fn run(ctx: &Ctx) -> i32 {
     rep.assume("a program whose premise check (generator audit by the dynamic convention monitor) fails is a generator problem, counted as premise_failed, never a violation");
     let per_shard: usize = ctx.tier.pick(100, 6000);
     let prof = Profile::conforming();
-    let acc = run_sharded(ctx.jobs, |shard| {
+    let acc = run_sharded(ctx, |shard| {
         let mut acc = Acc::new();
         for k in 0..per_shard {
             let mut rng = Rng::derive(ctx.seed, 4_000 + shard as u64, k as u64);
